@@ -7,6 +7,7 @@ import (
 	"errors"
 	"fmt"
 	"net"
+	"os"
 	"sort"
 	"time"
 
@@ -33,6 +34,7 @@ type AScn struct {
 	PublicIP string `json:"public_ip"`
 	RDNS     bool   `json:"rdns"`
 	NoDest   int    `json:"no_dest_mask"` // bit i (e2e calls): the run succeeds but has no destination hop (unanswered probe => 0)
+	ErrKind  int    `json:"err_kind"` // 0 plain error, 1 a net.Error whose Timeout() is true, 2 a wrapped context.DeadlineExceeded
 	Stagger  bool   `json:"stagger"`      // the end-to-end probes are launched far apart (runs complete in between) instead of almost at once
 	Bound    int    `json:"bound"`
 }
@@ -63,7 +65,14 @@ type aObs struct {
 func runA(sc *AScn, prefix []int, sig []uint32) (*vsched.Exec, *aObs) {
 	o := &aObs{errs: make([]error, sc.Queries+sc.E2e)}
 	for i := range o.errs {
-		o.errs[i] = fmt.Errorf("injected failure of call %d", i)
+		switch sc.ErrKind {
+		case 1:
+			o.errs[i] = &net.OpError{Op: "read", Net: "ip4", Err: fmt.Errorf("call %d: %w", i, os.ErrDeadlineExceeded)}
+		case 2:
+			o.errs[i] = fmt.Errorf("call %d timed out: %w", i, context.DeadlineExceeded)
+		default:
+			o.errs[i] = fmt.Errorf("injected failure of call %d", i)
+		}
 	}
 	cache.Cache.Flush()
 	old := reversedns.LookupAddrFn
@@ -243,7 +252,7 @@ func blocks(tier string) []block {
 			if q >= 2 {
 				rd = 1
 			}
-			c := (1<<n + (1<<e - 1)) * fact(n) * len(pubs) * rd * 2
+			c := (1<<n + (1<<e - 1)) * fact(n) * len(pubs) * rd * 2 * 3
 			bs = append(bs, block{q, e, bound, c, rd})
 		}
 	}
@@ -266,6 +275,8 @@ func atA(tier string, idx int) *AScn {
 		}
 		n := b.q + b.e
 		sc := &AScn{Queries: b.q, E2e: b.e, Bound: b.bound}
+		sc.ErrKind = idx % 3
+		idx /= 3
 		sc.Stagger = idx%2 == 1
 		idx /= 2
 		sc.RDNS = idx%b.rd == 1
